@@ -33,9 +33,13 @@ type c06wCase struct {
 	Msgs      int    `json:"msgs"`      // replication messages the source sends before the ending
 	Acks      int    `json:"acks"`      // sync-state messages the initiator sends before the ending
 	End       string `json:"end"`       // initiatorCancel | initiatorCloseSend | sourceEOF | sourceErr | shutdown
+	// Tail (only with End = initiatorCloseSend): that many further sync-state messages are sent right before the
+	// half-close, without waiting for them to arrive, and the source takes 2 ms to process each one: what was sent before
+	// a clean end must still arrive
+	Tail int `json:"tail,omitempty"`
 }
 
-const c06wRule = "wiring part: a real ClusterConnection in default or LCM mode (TCP both sides, or mux-server / mux-client towards the remote side with a second proxy as mux peer), real gRPC; the fake source sends 0-4 replication messages, the initiator 0-3 sync-state messages, then one of: initiator cancels, initiator half-closes, source ends the RPC cleanly, source fails it, or the proxy is shut down (lifetime cancelled) with the stream idle; oracle: every message arrives at the other end, in order, unmodified; within 20 s of real time after the ending the source's handler has seen its stream end AND the initiator's Recv has returned (a proxy that is shut down counts as both sides ending: no stream may stay half-open behind it); non-trivial = messages flowed in both directions before the ending; distinct = distinct cases"
+const c06wRule = "wiring part: a real ClusterConnection in default or LCM mode (TCP both sides, or mux-server / mux-client towards the remote side with a second proxy as mux peer), real gRPC; the fake source sends 0-4 replication messages, the initiator 0-3 sync-state messages, then one of: initiator cancels, initiator half-closes (optionally right after a tail of 5-60 further sync-state messages that a slow source is still working through), source ends the RPC cleanly, source fails it, or the proxy is shut down (lifetime cancelled) with the stream idle; oracle: every message arrives at the other end, in order, unmodified; within 20 s of real time after the ending the source's handler has seen its stream end AND the initiator's Recv has returned (a proxy that is shut down counts as both sides ending: no stream may stay half-open behind it); non-trivial = messages flowed in both directions before the ending; distinct = distinct cases"
 
 func c06wRun(c c06wCase) (viol string, harness error) {
 	edit := func(cfg *config.ClusterConnConfig) {
@@ -86,6 +90,9 @@ func c06wRun(c c06wCase) (viol string, harness error) {
 				mu.Lock()
 				srcGot = append(srcGot, req.GetSyncReplicationState().GetInclusiveLowWatermark())
 				mu.Unlock()
+				if c.Tail > 0 {
+					time.Sleep(2 * time.Millisecond)
+				}
 			}
 		}()
 		select {
@@ -173,6 +180,12 @@ func c06wRun(c c06wCase) (viol string, harness error) {
 	case "initiatorCancel":
 		cancel()
 	case "initiatorCloseSend":
+		for i := 1; i <= c.Tail; i++ {
+			if err := st.Send(&adminservice.StreamWorkflowReplicationMessagesRequest{Attributes: &adminservice.StreamWorkflowReplicationMessagesRequest_SyncReplicationState{
+				SyncReplicationState: &replicationv1.SyncReplicationState{InclusiveLowWatermark: int64(500 + c.Acks + i)}}}); err != nil {
+				return fmt.Sprintf("the initiator's Send failed on an open stream: %v", err), nil
+			}
+		}
 		_ = st.CloseSend()
 	case "sourceEOF":
 		srcRelease <- nil
@@ -185,6 +198,20 @@ func c06wRun(c c06wCase) (viol string, harness error) {
 	case <-srcEnded:
 	case <-time.After(20 * time.Second):
 		return fmt.Sprintf("20 s after the ending (%s) the source-side stream is still open (its handler has not seen the stream end)", c.End), nil
+	}
+	if c.End == "initiatorCloseSend" && c.Tail > 0 {
+		mu.Lock()
+		n := len(srcGot)
+		ok := n == c.Acks+c.Tail
+		for i, v := range srcGot {
+			if v != int64(501+i) {
+				ok = false
+			}
+		}
+		mu.Unlock()
+		if !ok {
+			return fmt.Sprintf("the initiator sent %d sync-state messages and then ended its side cleanly; the source's stream ended after it had received only %d of them (in order: %v)", c.Acks+c.Tail, n, n <= c.Acks+c.Tail), nil
+		}
 	}
 	tmo := time.After(20 * time.Second)
 	for {
@@ -241,6 +268,7 @@ func TestVF_C06_Wiring(t *testing.T) {
 			for _, e := range []string{"initiatorCancel", "initiatorCloseSend", "sourceEOF", "sourceErr", "shutdown"} {
 				run(t, c06wCase{Transport: tr, Msgs: 2, Acks: 1, End: e})
 			}
+			run(t, c06wCase{Transport: tr, Msgs: 1, Acks: 1, End: "initiatorCloseSend", Tail: 40})
 		}
 	}
 	rapid.Check(t, func(rt *rapid.T) {
@@ -251,6 +279,9 @@ func TestVF_C06_Wiring(t *testing.T) {
 			Msgs:      rapid.IntRange(0, 4).Draw(rt, "msgs"),
 			Acks:      rapid.IntRange(0, 3).Draw(rt, "acks"),
 			End:       rapid.SampledFrom([]string{"initiatorCancel", "initiatorCloseSend", "sourceEOF", "sourceErr", "shutdown", "shutdown"}).Draw(rt, "end"),
+		}
+		if c.End == "initiatorCloseSend" && rapid.Bool().Draw(rt, "withTail") {
+			c.Tail = rapid.IntRange(5, 60).Draw(rt, "tail")
 		}
 		run(rt, c)
 	})
